@@ -416,6 +416,7 @@ func (c *Ctx) RunC08(tier string) {
 		}
 	}
 	rep.Bound += "; sequences of 1..14 one-line blocks with counts 0..2; nests 6x3x1, 3x3x3, 2x2x2, 6x1x1, 1x3x3; single labelled blocks with every count 7..100, bodies of 5..12 lines (counts 0..3, alone and nested), a 12 x i nest, nests of depth 4 and 5; one surface variant per program (CR-LF, upper-case FOR/ROF with a comment after ROF, between ORG and END, a trailing comment on every line)"
+	c.runC08Comments()
 	rep.Counters["c08:structure-trees"] += int64(n) / int64(c.Sh.N)
 	rep.Sample(forSource([]FItem{{Block: true, Label: "blk", Counter: "i", Count: "n+1", Items: []FItem{{Tmpl: 2}, {Block: true, Counter: "j", Count: "i", Items: []FItem{{Tmpl: 1}}}}}}, "jmp blk\n"))
 }
